@@ -1290,4 +1290,11 @@ def _caller_stores_by_flag(F, nb, via):
     return ok
 
 
-RULES = [R1_plugin, R2_flatten, R3_odometer]
+def R4_product_reaches_the_search(ctx):
+    """"exactly n1 x ... x nm queries": the expanded array leaves the input stage as the plugins made it (shared with C06.R8; round 7:
+    a cap of 4096 expanded queries per input, applied with `truncate` after flattening)"""
+    from props.C06 import R8_expansion_intact
+    R8_expansion_intact(ctx)
+
+
+RULES = [R1_plugin, R2_flatten, R3_odometer, R4_product_reaches_the_search]
